@@ -235,6 +235,8 @@ pub struct Recorder {
     /// discovery mode (PV_COLLECT=1, never used by registered checks): signature -> first example
     pub collected: BTreeMap<String, (u64, String)>,
     pub known: Option<Arc<KnownFindings>>,
+    /// wall-clock time of the slowest single case (milliseconds)
+    pub slowest_case_ms: u64,
 }
 
 impl Recorder {
@@ -322,6 +324,7 @@ impl Recorder {
             let e = self.collected.entry(k).or_insert((0, ex));
             e.0 += n;
         }
+        self.slowest_case_ms = self.slowest_case_ms.max(o.slowest_case_ms);
     }
 }
 
@@ -541,6 +544,14 @@ impl Judger {
         Judger { prop, tier, iso }
     }
     pub fn judge(&mut self, payload: &Payload, rec: &mut Recorder) -> Result<(), Failure> {
+        let started = Instant::now();
+        let r = self.judge_inner(payload, rec);
+        if !rec.frozen {
+            rec.slowest_case_ms = rec.slowest_case_ms.max(started.elapsed().as_millis() as u64);
+        }
+        r
+    }
+    fn judge_inner(&mut self, payload: &Payload, rec: &mut Recorder) -> Result<(), Failure> {
         match self.iso.as_mut() {
             None => judge(self.prop.as_ref(), payload, self.tier, rec),
             Some(iso) => {
@@ -987,6 +998,7 @@ pub fn write_evidence(prop: &dyn Prop, tier: Tier, out: &RunOutcome) {
         coverage.insert("exhaustive_part".into(), json!(n));
     }
     coverage.insert("exhaustive".into(), json!(false));
+    coverage.insert("slowest_case_s".into(), json!(rec.slowest_case_ms as f64 / 1000.0));
     if let Some(f) = &out.fuzz {
         coverage.insert(
             "coverage_guided_stage".into(),
